@@ -138,9 +138,11 @@ func batchToRequests(connectionGroup []builderSlotGroup) []requestBatch {
 				batch.UnitID = unitID
 			}
 
-			slotEndAddress := slotAddress + slot.size
-			addressDiff := slotEndAddress - firstAddress
-			if addressDiff > addressLimit {
+			// int arithmetic: uint16 would wrap for slots at the top of the address space and put
+			// fields that are up to 65535 registers apart into the same request
+			slotEndAddress := int(slotAddress) + int(slot.size)
+			addressDiff := slotEndAddress - int(firstAddress)
+			if addressDiff > int(addressLimit) {
 				result = append(result, batch)
 
 				batch = requestBatch{
@@ -149,10 +151,10 @@ func batchToRequests(connectionGroup []builderSlotGroup) []requestBatch {
 					StartAddress: slotAddress,
 				}
 				firstAddress = slotAddress
-				addressDiff = slot.size
+				addressDiff = int(slot.size)
 			}
-			if batch.Quantity < addressDiff {
-				batch.Quantity = addressDiff
+			if int(batch.Quantity) < addressDiff {
+				batch.Quantity = uint16(addressDiff)
 			}
 
 			batch.fields = append(batch.fields, slot.fields...)
